@@ -2476,7 +2476,9 @@ class Postprocessor:
     """
 
     PASSES: Sequence[Sequence[Type[Handler]]] = [
-        [IncludeHandler],
+        # Banners are put on their pages first: what their text refers to (|substitutions|)
+        # is resolved, and reported when undefined, like everything else on the page
+        [IncludeHandler, BannerHandler],
         [SubstitutionHandler],
         [
             HeadingHandler,
@@ -2487,7 +2489,6 @@ class Postprocessor:
             TabsSelectorHandler,
             ContentsHandler,
             InstruqtHandler,
-            BannerHandler,
             GuidesHandler,
             OpenAPIHandler,
             OpenAPIChangelogHandler,
